@@ -120,6 +120,55 @@ def gen_case(rng, npools=1, style="mix", stop=True, cancels=True):
     return {"clock": str(clock), "pools": cfgs, "ops": ops, "kind": "pool%d_%s" % (npools, style), "stream": True}
 
 
+def gen_late_cancel(rng):
+    """Cancels aimed at tasks that are no longer in progress (finished, result taken, result declared
+    unwanted) while other tasks are: the other tasks must not notice."""
+    uid = Uid()
+    clock = rng.choice([0, 10**6, 10**9])
+    mx = rng.choice([1, 1, 2, 65536])
+    ops, cur = [], clock
+    nfin = rng.randint(1, 2)
+    for t in range(nfin):
+        ops.append({"op": "submit", "p": 0, "prio": None,
+                    "body": [{"i": "log", "k": t}, {"i": "return", "v": str(t + 1)}]})
+        k = rng.random()
+        if k < 0.5:
+            ops.append({"op": "clean", "p": 0, "t": t})       # the join handle was dropped before the task ran
+    # the worker that ran the finished tasks goes on to the live ones when they are queued behind them
+    early = rng.random() < 0.3
+    if early:
+        ops.append({"op": "pass", "p": 0, "deadline": str(U64)})
+        for t in range(nfin):
+            if rng.random() < 0.4:
+                ops.append({"op": rng.choice(["take", "wait", "clean"]), "p": 0, "t": t})
+    nlive = rng.randint(1, 3)
+    for j in range(nlive):
+        body = [{"i": "log", "k": 5 + j}]
+        for _ in range(rng.randint(1, 3)):
+            k = rng.random()
+            if k < 0.4:
+                body.append({"i": "suspend", "y": "0"})
+            elif k < 0.7:
+                body.append({"i": "delay", "y": "0", "d": str(rng.choice([1, 2, 5]) * 1000 + uid.next())})
+            else:
+                body.append({"i": "until", "y": "0", "t": str(cur + rng.choice([1, 3]) * 1000 + uid.next())})
+        body.append({"i": "return", "v": str(10 + j)})
+        ops.append({"op": "submit", "p": 0, "prio": None, "body": body})
+    ops.append({"op": "pass", "p": 0, "deadline": str(rng.choice([cur, cur + 1000]))})
+    for _ in range(rng.randint(1, 3)):
+        ops.append({"op": "cancel", "t": rng.randrange(nfin)})
+        if rng.random() < 0.5:
+            ops.append({"op": "pass", "p": 0, "deadline": str(cur + 1000)})
+    cur += 10**9
+    ops.append({"op": "clock", "c": str(cur)})
+    ops.append({"op": "pass", "p": 0, "deadline": str(U64)})
+    ops.append({"op": "pass", "p": 0, "deadline": str(U64)})
+    ops.append({"op": "running", "p": 0})
+    for t in range(nfin + nlive):
+        ops.append({"op": "wait", "p": 0, "t": t})
+    return {"clock": str(clock), "pools": [[0, mx, 0]], "ops": ops, "kind": "late_cancel", "stream": True}
+
+
 def g_op(o):
     k = o["op"]
     if k == "submit":
